@@ -9,7 +9,9 @@ import (
 	"os"
 	"regexp"
 	"runtime"
+	"runtime/metrics"
 	"strings"
+	"sync"
 	"time"
 )
 
@@ -174,9 +176,9 @@ type CallResult struct {
 // meter=false skips the two ReadMemStats calls.
 func Guard(soft, hard time.Duration, meter bool, f func()) CallResult {
 	var res CallResult
-	var m0, m1 runtime.MemStats
+	var a0 uint64
 	if meter {
-		runtime.ReadMemStats(&m0)
+		a0 = TotalAlloc()
 	}
 	done := make(chan struct{})
 	go func() {
@@ -199,10 +201,28 @@ func Guard(soft, hard time.Duration, meter bool, f func()) CallResult {
 		}
 	}
 	if meter {
-		runtime.ReadMemStats(&m1)
-		res.Alloc = m1.TotalAlloc - m0.TotalAlloc
+		res.Alloc = TotalAlloc() - a0
 	}
 	return res
+}
+
+var allocSample = []metrics.Sample{{Name: "/gc/heap/allocs:bytes"}}
+var allocMu sync.Mutex
+
+// TotalAlloc is runtime.MemStats.TotalAlloc (cumulative bytes allocated for heap objects) read
+// through runtime/metrics, i.e. without stopping the world (ReadMemStats costs ~0.5 ms in a
+// process with a populated heap, and the meter runs twice per call). Small-object counts
+// lag by at most one span per size class and P, which is irrelevant at a 64 MiB bound.
+func TotalAlloc() uint64 {
+	allocMu.Lock()
+	defer allocMu.Unlock()
+	metrics.Read(allocSample)
+	if allocSample[0].Value.Kind() == metrics.KindUint64 {
+		return allocSample[0].Value.Uint64()
+	}
+	var m runtime.MemStats
+	runtime.ReadMemStats(&m)
+	return m.TotalAlloc
 }
 
 // AllocBound is the property's proportionality bound: 64 MiB + 64 bytes per input byte.
